@@ -192,6 +192,8 @@ def oracle(case, ctx):
     ctx.label(strategy)
     ctx.label(case["metric"])
     ctx.label("folds=%s" % (n_folds if n_folds < 3 else "3+"))
+    if min(case["cv"]["fh"]) <= 0:
+        ctx.label("horizon_reaches_back_into_training_window")
     ctx.mark_nontrivial(n_folds >= 2 and case["metric"] in ASYM)
     if isinstance(r, Raised):
         return [D("evaluate_raised:%s@%s" % (r.type, r.where), "%s %s %s: %s" % (pools.describe(spec), case["cv"], strategy, r.msg))]
@@ -272,6 +274,11 @@ def cases(draw):
     kind = draw(st.sampled_from(["expanding", "sliding", "sliding", "single"]))
     wl = draw(st.integers(base, base + 8))
     n = draw(st.integers(wl + fh[-1] + 1, wl + fh[-1] + 14))
+    back = draw(st.sampled_from([None, None, None, [0], [-1, 0], [-2]])) if spec["kind"] in ("naive", "trend") and kind != "single" and not spec.get("wl") else None
+    if back and wl >= 4:
+        # a horizon that also reaches back into the training window (steps <= 0): those time
+        # points are test points like the others
+        fh = sorted(set(back + fh))
     cv = {"kind": kind, "fh": fh, "wl": wl, "step": draw(st.integers(1, 5))}
     if kind == "sliding" and draw(st.integers(0, 3)) == 0 and wl + 1 + fh[-1] <= n:
         cv["iw"] = draw(st.integers(wl + 1, n - fh[-1]))
